@@ -25,10 +25,7 @@ Print Assumptions C15_refinement.
 (* identifiers are assigned strictly increasing (hence never reused) *)
 Theorem C15_ids_increasing : forall g ops, cfg_wrap g = false ->
   StronglySorted N.lt (tr_ids (snd (run (cstep g) cinit ops))).
-Proof.
-  exact (fun g ops Hw => eq_ind_r (fun t => StronglySorted N.lt (tr_ids t))
-                           (proj1 (ids_increasing_gen ops ainit AInv_init)) (refinement g ops Hw)).
-Qed.
+Proof. exact concrete_ids_increasing. Qed.
 Print Assumptions C15_ids_increasing.
 
 (* a name is held by at most one entry of staging ∪ services; so is an identifier *)
@@ -63,7 +60,7 @@ Print Assumptions C15_visibility.
 Theorem C15_update_identity : forall ops i,
   let a := fst (run astep ainit ops) in
   forall id n rd, entry_with (fst (fst (astep a (OUpdate i)))) id n rd <-> entry_with a id n rd.
-Proof. exact (fun ops i => update_keeps_identity _ i (proj1 (run_inv ops ainit AInv_init))). Qed.
+Proof. exact update_identity_reachable. Qed.
 Print Assumptions C15_update_identity.
 
 (* signals: for every identifier the emitted serviceAdded / serviceRemoved are exactly those
@@ -72,10 +69,7 @@ Print Assumptions C15_update_identity.
 Theorem C15_events_exact : forall g ops id, cfg_wrap g = false ->
   events_for id (tr_events (snd (run (cstep g) cinit ops))) =
   life_events id (lifecycle_of id (snd (run (cstep g) cinit ops))).
-Proof.
-  exact (fun g ops id Hw => eq_ind_r (fun t => events_for id (tr_events t) = life_events id (lifecycle_of id t))
-                              (events_exact ops id) (refinement g ops Hw)).
-Qed.
+Proof. exact concrete_events_exact. Qed.
 Print Assumptions C15_events_exact.
 
 (* ---- concurrent histories ---- *)
@@ -83,7 +77,7 @@ Print Assumptions C15_events_exact.
 (* the executable checker decides linearizability (generic in the spec) *)
 Theorem C15_lin_check_correct : forall h,
   lin_check astep_r dres_eqb ainit h = true <-> linearizable astep_r ainit h.
-Proof. exact (lin_check_iff _ _ _ astep_r dres_eqb dres_eqb_spec ainit). Qed.
+Proof. exact dir_lin_check_correct. Qed.
 Print Assumptions C15_lin_check_correct.
 
 (* every history of an object whose operations are single atomic steps inside their call
